@@ -14,7 +14,10 @@ CACHE_DIR = os.path.join(VERIF_ROOT, '.cache')
 PINNED = {
     'PYTHONHASHSEED': '0',
     'DISABLE_PREFERENCES': '1',
-    'NUMBA_CACHE_DIR': os.path.join(CACHE_DIR, 'numba'),
+    # scratch copies of the repository (seeded-change evaluation) keep their compiled kernels inside the
+    # scratch tree, which is removed with it; only /repo's go to /verif/.cache (numba keys its cache by path)
+    'NUMBA_CACHE_DIR': (os.path.join(CACHE_DIR, 'numba') if os.environ.get('VERIF_REPO', '/repo') == '/repo'
+                        else os.path.join(os.environ['VERIF_REPO'], '.numba_cache')),
     'PYTHONWARNINGS': 'ignore',
     'OMP_NUM_THREADS': '1',
     'OPENBLAS_NUM_THREADS': '1',
